@@ -263,6 +263,11 @@ def main():
                     if kh:
                         known_hits.append((f, kh[0]))
                         failed_obls.add(f['obligation'])
+                    elif pid not in P.PANIC_PROPS and re.search(r'::(arith\[|call-pre\(vstd)', f['obligation'] or ''):
+                        # an overflow / index / unwrap side condition of std: a possible PANIC, which is not what this
+                        # property states (C09 does) - code that adds unprovable arithmetic is not thereby wrong
+                        undecided.append('%s: possible panic (not this property, see C09): %s' % (name, f['obligation']))
+                        failed_obls.add(f['obligation'])
                     else:
                         violations.append((name, f, res))
                         failed_obls.add(f['obligation'])
